@@ -3,7 +3,7 @@ import copy
 from .. import bb, chain as K, gen_chain as GC, genesis, build
 
 NAMESPACE = "Rbp.Props.C09"
-REQUIRED = ["merkle_eq_spec", "tamper_gives_collision", "verify_iff", "genesis_table_published", "verify_run_decides", "rejected_no_final", "verified_run_only_delivers_accepted_blocks"]
+REQUIRED = ["merkle_eq_spec", "tamper_gives_collision", "verify_iff", "genesis_table_published", "verify_run_decides", "rejected_no_final", "verified_run_only_delivers_accepted_blocks", "genesis_header_hashes_to_published_hash"]
 LEAN_FILES = ["Rbp/Model/Merkle.lean", "Rbp/Model/Run.lean"]
 RULE = ("(a) hook `merkle`: the real utils::merkle_root vs the Lean loop on hash lists of every length 1..64 (exhaustive shapes) and sampled lengths up to 600, plus the empty list; "
         "(b) black-box --verify: consistent chains (1..N txs per block, every --start) must pass, real reconstructed genesis blocks of bitcoin/testnet3/litecoin/dogecoin as positive genesis case, "
